@@ -8,6 +8,12 @@ is validated by the trait at the end of the chain), then its own value; `del`
 restores the link.  Notification: a change of the cell a deferring attribute
 currently reads through produces exactly one call per mechanism with the new
 value; a change of any other cell produces none.  See DESIGN.md section 4 / C11.
+
+Strata beyond the base workload (each with its own counters and gates): delegates
+that define equality (a swap to a distinct but EQUAL delegate must be followed
+like any other swap), and deferring traits that override an alternative
+declaration of the same name (re-declared in a subclass / first of two bases):
+the forwarder must follow the declaration that governs reads and writes.
 """
 import collections
 import copy as copy_module
@@ -16,6 +22,7 @@ import pickle
 from traits.api import (
     HasTraits, Instance, Int, Range, Str, CInt, Enum, Any, TraitError,
     DelegatesTo, PrototypedFrom, DelegationError, push_exception_handler,
+    ComparisonMode,
 )
 from traits.observation.api import (
     push_exception_handler as obs_push_exception_handler,
@@ -29,11 +36,25 @@ META = {
              "name, 'pre_*', '*' with __prefix__} x listenable {True, False}; two candidate delegates "
              "at every level (two middles, two terminals, possibly of different target trait types "
              "Int / Range / Str / CInt / Enum); per level the deferring class either defines its "
-             "traits and __prefix__ or inherits them from a base class; recorders {on_trait_change, "
+             "traits and __prefix__ or inherits them from a base class; stratum re-declaration (14% of "
+             "the levels): the deferring trait is declared next to an ALTERNATIVE declaration of the same "
+             "name that the class overrides - a subclass re-declares what its base declares differently, "
+             "base / middle / subclass declare real / alternative / real, or two bases declare the name "
+             "(real first in the MRO) - the alternative being a DelegatesTo / PrototypedFrom through the "
+             "same or another reference trait ('o'), another prefix style / target name / listenable, "
+             "or an ordinary value trait; stratum delegate equality (16% of the histories): the "
+             "candidate delegate classes of every level define __eq__ (equal iff the mirrored value is "
+             "equal / all delegates equal; hashable or __hash__ = None) and the reference trait has "
+             "comparison_mode {default, none, identity, equality}, swaps there are steered towards a "
+             "DISTINCT candidate that compares EQUAL to the current delegate (the assignment that makes "
+             "it equal is issued first); recorders {on_trait_change, "
              "observe, both, none} on every deferring attribute.  Ops: assign through a deferring "
              "attribute (valid, coerced or invalid), assign the target on any terminal, swap a "
              "delegate reference (to either candidate, or to None and back), del a local value, "
-             "read, an assignment with a re-entrant handler armed (a handler on a deferring "
+             "read, assign an unrelated attribute of a delegate (one of the names the other prefix "
+             "styles would resolve to; also on the middle objects below a re-declaring level), re-point "
+             "the reference only an alternative declaration names, "
+             "an assignment with a re-entrant handler armed (a handler on a deferring "
              "attribute or on the delegate that reacts to the notifications it is told by assigning "
              "the same target again, directly or through a deferring attribute, fixed values or "
              "clamping, at most 3 reactions), and a round trip of the whole structure "
@@ -66,7 +87,16 @@ META = {
                   "reentrant_must_through_chain": 1200, "reentrant_route_through": 1500,
                   "reentrant_route_direct": 4000, "reentrant_on_front": 1500,
                   "reentrant_on_middle": 1500, "reentrant_on_terminal": 1500,
-                  "reentrant_clamp": 2000},
+                  "reentrant_clamp": 2000,
+                  "histories_eq_delegates": 2400, "swap_to_equal_distinct": 2100,
+                  "swap_to_equal_distinct_value": 850, "swap_to_equal_distinct_always": 1250,
+                  "swap_to_equal_distinct_refcmp_set": 1600, "must_after_equal_swap": 1500,
+                  "none_former_after_equal_swap": 900, "must_eq_delegates": 12000,
+                  "histories_redeclared": 3200, "must_redeclared": 12000,
+                  "must_redeclared_redeclares": 3800, "must_redeclared_reback": 3800,
+                  "must_redeclared_mixin": 3800, "none_redeclared_elsewhere": 11500,
+                  "swap_other_ref_checked": 950, "decoy_assign_checked": 3200,
+                  "decoy_assign_on_middle": 110},
         "thorough": {"evaluations": 4500000, "ops": 1650000, "notify_must_checked": 480000,
                      "notify_none_checked": 2200000, "invalid_checked": 100000, "del_checked": 90000,
                      "swap_checked": 220000, "chain_ops": 800000, "must_after_swap": 85000,
@@ -86,7 +116,16 @@ META = {
                      "reentrant_must_through_chain": 16000, "reentrant_route_through": 20000,
                      "reentrant_route_direct": 50000, "reentrant_on_front": 20000,
                      "reentrant_on_middle": 20000, "reentrant_on_terminal": 20000,
-                     "reentrant_clamp": 26000},
+                     "reentrant_clamp": 26000,
+                     "histories_eq_delegates": 32000, "swap_to_equal_distinct": 33000,
+                     "swap_to_equal_distinct_value": 13500, "swap_to_equal_distinct_always": 19500,
+                     "swap_to_equal_distinct_refcmp_set": 25000, "must_after_equal_swap": 25000,
+                     "none_former_after_equal_swap": 15500, "must_eq_delegates": 185000,
+                     "histories_redeclared": 42000, "must_redeclared": 185000,
+                     "must_redeclared_redeclares": 58000, "must_redeclared_reback": 58000,
+                     "must_redeclared_mixin": 58000, "none_redeclared_elsewhere": 180000,
+                     "swap_other_ref_checked": 15000, "decoy_assign_checked": 50000,
+                     "decoy_assign_on_middle": 1600},
     },
     "assumptions": [
         "reading a plain (non-deferred) trait and obj.__dict__ are trusted observation channels",
@@ -156,6 +195,7 @@ TT_VALID = {
     "Enum": ["r", "g", "b"],
 }
 HOSTILE = ["bad", None, 1.5, -1, 10, 3, "g", "7", (1,), 2.0, "x"]
+DECOY_VALUES = [0, 1, 2, 7, "a", "g", "decoy", None, 2.5]
 TTYPES = ["Int", "Range", "Str", "CInt", "Enum"]
 
 ABSENT = "<absent>"        # model marker: no local value
@@ -197,40 +237,117 @@ def _new_class(name, bases, ns):
     return cls
 
 
-def deferrer_class(kind, style, listen, attr, named, cls_prefix, inherit=False):
+# How the class of a deferring object comes by its deferring trait:
+#   plain        declared once (on the class, or on its base when `inherit`)
+#   redeclares   a base class declares the same name differently (the *alternative*
+#                declaration), the subclass re-declares it (the real one)
+#   reback       base: real, middle class: alternative, subclass: real again
+#   mixin        two bases declare the name (real first in the MRO, alternative second)
+SHAPES = ["plain", "redeclares", "reback", "mixin"]
+# Equality of the candidate delegate objects:
+#   identity     default object equality
+#   value        equal iff the value read through the mirrored attribute is equal
+#   always       all delegates compare equal
+# (+ "-unhashable": __hash__ = None, as Python does for a class that only defines __eq__)
+EQMODES = ["identity", "value", "value-unhashable", "always", "always-unhashable"]
+REFCMP = {"default": None, "none": ComparisonMode.none, "identity": ComparisonMode.identity,
+          "equality": ComparisonMode.equality}
+
+
+def _eq_key(o):
+    name = getattr(type(o), "vf_key_attr", None)
+    if name is None:
+        return ("id", id(o))
+    try:
+        v = getattr(o, name)
+    except Exception:  # noqa: BLE001 - no delegate on the way
+        return ("unreadable",)
+    return (type(v).__name__, v)
+
+
+def _eq_value(self, other):
+    return other is self or (isinstance(other, HasTraits) and _eq_key(self) == _eq_key(other))
+
+
+def _eq_always(self, other):
+    return isinstance(other, HasTraits)
+
+
+def eq_namespace(eqmode, keyattr):
+    if eqmode == "identity":
+        return {}
+    ns = {"vf_key_attr": keyattr,
+          "__eq__": _eq_value if eqmode.startswith("value") else _eq_always,
+          "__hash__": None if eqmode.endswith("unhashable") else HasTraits.__hash__}
+    return ns
+
+
+def declaration(decl):
+    """decl = (kind, reference name, style, explicit name, listenable); kind 'V' is an
+    ordinary value trait (only as the alternative declaration of a base class)."""
+    kind, ref, style, named, listen = decl
+    if kind == "V":
+        return Any("plain")
+    T = DelegatesTo if kind == "D" else PrototypedFrom
+    kw = {}
+    if style == "named":
+        kw["prefix"] = named
+    elif style == "pre_star":
+        kw["prefix"] = "pre_*"
+    elif style == "star":
+        kw["prefix"] = "*"
+    if not listen:
+        kw["listenable"] = False
+    return T(ref, **kw)
+
+
+def deferrer_class(kind, style, listen, attr, named, cls_prefix, inherit=False,
+                   shape="plain", alt=None, decoys=(), eqmode="identity", refcmp="default"):
     """inherit: the instantiated class is an empty subclass; __prefix__ and the
-    deferring trait are defined on its base class."""
-    key = ("D", kind, style, listen, attr, named, cls_prefix, inherit)
+    deferring trait are defined on its base class(es)."""
+    key = ("D", kind, style, listen, attr, named, cls_prefix, inherit,
+           shape, alt, decoys, eqmode, refcmp)
     cls = _cls_cache.get(key)
     if cls is None:
-        T = DelegatesTo if kind == "D" else PrototypedFrom
-        kw = {}
-        if style == "named":
-            kw["prefix"] = named
-        elif style == "pre_star":
-            kw["prefix"] = "pre_*"
-        elif style == "star":
-            kw["prefix"] = "*"
-        if not listen:
-            kw["listenable"] = False
-        cls = _new_class("Def", (HasTraits,), {
-            "__prefix__": cls_prefix,
-            "p": Instance(HasTraits),
-            attr: T("p", **kw),
-        })
+        real = (kind, "p", style, named, listen)
+        kw = {} if REFCMP[refcmp] is None else {"comparison_mode": REFCMP[refcmp]}
+        ns = {"__prefix__": cls_prefix, "p": Instance(HasTraits, **kw)}
+        if shape != "plain":
+            ns["o"] = Instance(HasTraits)       # the reference an alternative declaration may use
+        for d in decoys:
+            ns[d] = Any("decoy:" + d)
+        ns.update(eq_namespace(eqmode, attr))
+        if shape == "plain":
+            ns[attr] = declaration(real)
+            cls = _new_class("Def", (HasTraits,), ns)
+        elif shape == "redeclares":
+            ns[attr] = declaration(alt)
+            base = _new_class("DefBase", (HasTraits,), ns)
+            cls = _new_class("DefRe", (base,), {attr: declaration(real)})
+        elif shape == "reback":
+            ns[attr] = declaration(real)
+            base = _new_class("DefBase", (HasTraits,), ns)
+            mid = _new_class("DefAlt", (base,), {attr: declaration(alt)})
+            cls = _new_class("DefRe", (mid,), {attr: declaration(real)})
+        else:
+            root = _new_class("DefRoot", (HasTraits,), ns)
+            first = _new_class("DefMixA", (root,), {attr: declaration(real)})
+            second = _new_class("DefMixB", (root,), {attr: declaration(alt)})
+            cls = _new_class("DefMix", (first, second), {})
         if inherit:
             cls = _new_class("DefSub", (cls,), {})
         _cls_cache[key] = cls
     return cls
 
 
-def terminal_class(target, tt, decoys):
-    key = ("T", target, tt, decoys)
+def terminal_class(target, tt, decoys, eqmode="identity"):
+    key = ("T", target, tt, decoys, eqmode)
     cls = _cls_cache.get(key)
     if cls is None:
         ns = {target: TT_MAKE[tt]()}
         for d in decoys:
             ns[d] = Any("decoy:" + d)
+        ns.update(eq_namespace(eqmode, target))
         cls = _new_class("Term", (HasTraits,), ns)
         _cls_cache[key] = cls
     return cls
@@ -262,6 +379,8 @@ class Defer:
         self.deleted = False     # its local value was deleted at least once
         self.copied = None       # how the current object was produced by a round trip
         self.via_none = False    # its reference was cleared (None) and set again
+        self.eqswap = False      # its reference was last re-pointed to a distinct object that compared equal
+        self.shape = "plain"     # how its class comes by the deferring trait (SHAPES)
         self.kinds = ""          # e.g. "D>P": kinds from this level down
 
 
@@ -443,6 +562,35 @@ class History:
         for lv in range(self.depth):
             names.append(resolve(self.levels[lv][1], names[-1], named[lv], self.pref[lv]))
         self.names = names
+        # stratum: the candidate delegates define equality (by mirrored value / all equal,
+        # hashable or not) and the reference trait has any comparison mode; swaps are
+        # steered towards a distinct candidate that compares equal to the current one
+        self.eqmode, self.refcmp = "identity", "default"
+        if rng.random() < 0.16:
+            self.eqmode = rng.choice(EQMODES[1:])
+            self.refcmp = rng.choice(sorted(REFCMP))
+        self.pending = []
+        # stratum: the deferring trait is a re-declaration (or one of two inherited
+        # declarations) next to an alternative declaration of the same name that defers
+        # elsewhere: other reference ('o'), other target name, other kind, or no deferral
+        self.shape, self.alt = [], []
+        for lv in range(self.depth):
+            shape = rng.choice(SHAPES[1:]) if rng.random() < 0.14 else "plain"
+            alt = None
+            if shape != "plain":
+                kind, style, listen = self.levels[lv]
+                while True:
+                    alt = (rng.choice("DDDPPPV"), rng.choice("po"), rng.choice(STYLES),
+                           rng.choice(named), rng.random() < 0.85)
+                    if alt[0] == "V":
+                        alt = ("V", "-", "-", "-", True)
+                        break
+                    alt_target = resolve(alt[2], names[lv], alt[3], self.pref[lv])
+                    if (alt[1], alt_target) != ("p", names[lv + 1]):
+                        break
+            self.shape.append(shape)
+            self.alt.append(alt)
+        self.redeclared = any(sh != "plain" for sh in self.shape)
         decoys = set()
         for src in names[:-1]:
             for st in STYLES:
@@ -451,17 +599,26 @@ class History:
                         decoys.add(resolve(st, src, nm, pf))
         decoys.discard(names[-1])
         self.decoys = tuple(sorted(decoys))
+        # the delegates of a re-declaring level carry the same unrelated attributes
+        # (an alternative declaration may name one of them)
+        self.mid_decoys = ()
+        if self.depth == 2 and self.shape[0] != "plain":
+            self.mid_decoys = tuple(d for d in self.decoys if d != names[1])
 
     def brief(self):
-        return "%s|%s|%s|%s" % (">".join("%s:%s:%d" % lv for lv in self.levels),
-                                ",".join(self.tts), self.mix,
-                                "".join("i" if i else "-" for i in self.inherit))
+        return "%s|%s|%s|%s|%s|%s" % (">".join("%s:%s:%d" % lv for lv in self.levels),
+                                      ",".join(self.tts), self.mix,
+                                      "".join("i" if i else "-" for i in self.inherit),
+                                      ",".join(self.shape), self.eqmode + ":" + self.refcmp)
 
     def describe(self):
         return {"depth": self.depth,
                 "levels": [{"kind": KIND_NAME[k], "style": s, "listenable": l,
-                            "class": "inherits traits and __prefix__" if inh else "defines them"}
-                           for (k, s, l), inh in zip(self.levels, self.inherit)],
+                            "class": "inherits traits and __prefix__" if inh else "defines them",
+                            "declaration": sh, "alternative_declaration": alt}
+                           for (k, s, l), inh, sh, alt in zip(self.levels, self.inherit,
+                                                              self.shape, self.alt)],
+                "delegate_equality": self.eqmode, "reference_comparison_mode": self.refcmp,
                 "names": self.names, "terminal_types": self.tts, "prefixes": self.pref[:self.depth],
                 "recorders": self.mix, "late_ref": self.late_ref, "ctor_local": self.ctor_local,
                 "terminals_explicit": self.init_explicit,
@@ -478,7 +635,7 @@ class History:
         self.terms = []
         for i in range(2):
             t = Term(i, self.tts[i], self.names[-1])
-            cls = terminal_class(t.target, t.tt, self.decoys)
+            cls = terminal_class(t.target, t.tt, self.decoys, self.eqmode)
             if self.init_explicit:
                 raw = rng.choice(TT_VALID[t.tt])
                 t.value = ref_validate(t.tt, raw)
@@ -492,13 +649,15 @@ class History:
         for lv in range(self.depth - 1, -1, -1):
             kind, style, listen = self.levels[lv]
             cls = deferrer_class(kind, style, listen, self.names[lv], named[lv], self.pref[lv],
-                                 self.inherit[lv])
+                                 self.inherit[lv], self.shape[lv], self.alt[lv],
+                                 self.mid_decoys if lv == 1 else (), self.eqmode, self.refcmp)
             count = 1 if lv == 0 else 2
             row = []
             for i in range(count):
                 label = "c" if lv == 0 else "m%d" % i
                 d = Defer(serial, lv, kind, style, listen, self.names[lv], below, label)
                 d.kinds = kinds_from_levels(self.levels[lv:])
+                d.shape = self.shape[lv]
                 serial += 1
                 d.ref = rng.choice(below)
                 kw = {}
@@ -512,11 +671,16 @@ class History:
                     d.obj.p = d.ref.obj
                 else:
                     d.obj = cls(p=d.ref.obj)
+                if d.shape != "plain" and rng.random() < 0.85:
+                    d.obj.o = rng.choice(below).obj
                 row.append(d)
             self.defs = row + self.defs      # front first, then the middles
             below = row
         self.front = self.defs[0]
-        self.decoy_vals = {(t.serial, dn): "decoy:" + dn for t in self.terms for dn in self.decoys}
+        self.decoy_owners = [(t, self.decoys) for t in self.terms]
+        if self.mid_decoys:
+            self.decoy_owners += [(d, self.mid_decoys) for d in self.defs[1:]]
+        self.decoy_vals = {(n.serial, dn): "decoy:" + dn for n, dns in self.decoy_owners for dn in dns}
         self.mechs = {"both": ("otc", "obs"), "otc": ("otc",), "obs": ("obs",), "none": ()}[self.mix]
         self.attach_recorders()
 
@@ -604,11 +768,12 @@ class History:
             if not same_value(got, t.value):
                 self.fail("%s/%s/%s" % (op, what_stored, st),
                           "terminal %s.%s holds %r, interpreter says %r" % (t.label, t.target, got, t.value))
-            for dn in self.decoys:
-                got = getattr(t.obj, dn)
-                if got != self.decoy_vals[(t.serial, dn)]:
+        for n, dns in self.decoy_owners:
+            for dn in dns:
+                got = getattr(n.obj, dn)
+                if not same_value(got, self.decoy_vals[(n.serial, dn)]):
                     self.fail("%s/%s/%s" % (op, what_stored, st),
-                              "unrelated attribute %s.%s became %r" % (t.label, dn, got))
+                              "unrelated attribute %s.%s became %r" % (n.label, dn, got))
         for d in self.defs:
             dct = d.obj.__dict__
             if d.local is ABSENT:
@@ -673,6 +838,12 @@ class History:
                         ctx.count("none_after_roundtrip")
                         if why == "link-broken":
                             ctx.count("none_linkbroken_after_" + d.copied)
+                    if why == "not-current-delegate" and any(l.eqswap for l in ref_chain(d)):
+                        ctx.count("none_former_after_equal_swap")
+                    if d.shape != "plain":
+                        ctx.count("none_redeclared")
+                        if why in ("not-current-delegate", "unrelated-attribute", "unrelated-reference"):
+                            ctx.count("none_redeclared_elsewhere")
                     if calls:
                         self.fail("notify/spurious/%s/%s" % (kk, why),
                                   "%s handler of %s.%s called %r after %s although %s"
@@ -697,6 +868,15 @@ class History:
                         ctx.count("must_inherited_prefix")
                     if len(levels) > 1:
                         ctx.count("must_through_chain")
+                    if any(l.eqswap for l in levels):
+                        ctx.count("must_after_equal_swap")
+                    if self.eqmode != "identity":
+                        ctx.count("must_eq_delegates")
+                    if any(l.shape != "plain" for l in levels):
+                        ctx.count("must_redeclared")
+                        for l in levels:
+                            if l.shape != "plain":
+                                ctx.count("must_redeclared_" + l.shape)
                     if not calls:
                         missed_below.add(d.serial)
                         self.fail("notify/missing/%s" % kk,
@@ -758,6 +938,8 @@ class History:
 
     # -- operations -----------------------------------------------------------
     def draw_op(self):
+        if self.pending:
+            return self.pending.pop(0)
         rng = self.rng
         r = rng.random()
         mids = self.defs[1:]
@@ -779,12 +961,17 @@ class History:
                 node = rng.choice(cleared)      # point a cleared reference at a candidate again
             elif rng.random() < 0.25:
                 return ("swap", node.label, None)      # clear the reference
+            if node.shape != "plain" and rng.random() < 0.3:
+                # re-point the reference only an alternative declaration names
+                return ("swap_o", node.label, rng.choice([0, 1, 0, 1, None]))
             idx = rng.randrange(2)
             if node is self.front and not self.hook_delegateless_ok:
                 if delegateless(node.cands[idx]):
                     idx = 1 - idx
                 if delegateless(node.cands[idx]):
                     return ("read",)
+            if self.eqmode != "identity" and rng.random() < 0.7:
+                return self.steer_equal_swap(node, idx)
             return ("swap", node.label, idx)
         if r < 0.93:
             ps = [d for d in self.defs if d.kind == "P" and (d.listen or self.del_unlistenable_ok)
@@ -796,7 +983,44 @@ class History:
         if rng.random() < 0.75 and (self.hook_delegateless_ok or not delegateless(self.front.ref)):
             # the whole structure goes through a copy; the history continues on the copy
             return ("roundtrip", rng.choice(ROUNDTRIPS))
+        if rng.random() < 0.5:
+            # an unrelated attribute of a delegate changes
+            n, dns = rng.choice(self.decoy_owners)
+            return ("assign_decoy", n.label, rng.choice(dns), rng.choice(DECOY_VALUES))
         return ("read",)
+
+    def steer_equal_swap(self, node, idx):
+        """A swap of node's reference to the OTHER candidate, preceded (when the candidates
+        compare by value and differ) by the assignment that makes the other candidate
+        equal to the current one."""
+        swap = ("swap", node.label, idx)
+        cur = node.ref
+        if cur is None:
+            return swap
+        if node.cands[idx] is cur:
+            idx = 1 - idx
+            if node is self.front and not self.hook_delegateless_ok and delegateless(node.cands[idx]):
+                return swap
+            swap = ("swap", node.label, idx)
+        other = node.cands[idx]
+        if other is cur or not self.eqmode.startswith("value"):
+            return swap
+        end_c, end_o = m_end(cur)[1], m_end(other)[1]
+        if end_c is None or end_o is None or end_c is end_o:
+            return swap
+        want = m_read(cur)
+        if same_value(m_read(other), want):
+            return swap
+        try:
+            if m_terminal(other) is None or \
+                    not same_value(ref_validate(m_terminal(other).tt, want), want):
+                return swap
+        except Reject:
+            return swap
+        self.pending.append(swap)
+        if end_o.is_def:
+            return ("assign", end_o.label, want)        # the other candidate reads a local value
+        return ("assign_t", end_o.label, want)
 
     def reentrant_target(self, op):
         """Terminal node the (valid) assignment `op` stores into, when the op may carry
@@ -963,6 +1187,14 @@ class History:
                 ctx.count("swap_from_none")
             if target is None and node.ref is not None:
                 ctx.count("swap_to_none")
+            equal_distinct = False
+            if repointed and target is not None and node.ref is not None:
+                try:
+                    equal_distinct = bool(node.ref.obj == target.obj)
+                except Exception:  # noqa: BLE001
+                    pass
+            if repointed:
+                node.eqswap = equal_distinct
             node.ref = target
             node.swapped = node.swapped or (repointed and target is not None)
             tl = target.label if target is not None else None
@@ -981,6 +1213,45 @@ class History:
             outcome = ("same-object" if not repointed else "cleared" if target is None else
                        "from-none" if before is UNDEF else
                        "value-changed" if not same_value(before, after) else "value-same")
+            if equal_distinct:
+                ctx.count("swap_to_equal_distinct")
+                ctx.count("swap_to_equal_distinct_" + self.eqmode.split("-")[0])
+                if self.refcmp != "default":
+                    ctx.count("swap_to_equal_distinct_refcmp_set")
+                outcome += "-equal-delegate"
+        elif name == "swap_o":
+            # the reference that only an alternative (overridden) declaration names
+            node = self.node(op[1])
+            target = node.cands[op[2]] if op[2] is not None else None
+            tl = target.label if target is not None else None
+            try:
+                node.obj.o = target.obj if target is not None else None
+            except Exception as e:  # noqa: BLE001
+                self.fail("swap-other-reference/%s/%s" % (type(e).__name__, kinds_from(self.front)),
+                          "%s.o = %s raised %r" % (node.label, tl, e))
+            self.check_exc_channel(name)
+            self.check_state("swap-other-reference", self.front, "stored-wrong", "read-wrong")
+            self.check_notifications({d.serial: ("none", "unrelated-reference") for d in self.defs},
+                                     None, "%s.o = %s" % (node.label, tl))
+            ctx.count("swap_other_ref_checked")
+            outcome = "other-reference"
+        elif name == "assign_decoy":
+            n, dn, val = self.node(op[1]), op[2], op[3]
+            old = self.decoy_vals[(n.serial, dn)]
+            self.decoy_vals[(n.serial, dn)] = val
+            try:
+                setattr(n.obj, dn, val)
+            except Exception as e:  # noqa: BLE001
+                self.fail("assign-unrelated/%s/%s" % (type(e).__name__, kinds_from(self.front)),
+                          "%s.%s = %r raised %r" % (n.label, dn, val, e))
+            self.check_exc_channel(name)
+            self.check_state("assign-unrelated", self.front, "stored-wrong", "read-wrong")
+            self.check_notifications({d.serial: ("none", "unrelated-attribute") for d in self.defs},
+                                     None, "%s.%s = %r (an attribute nothing defers to)" % (n.label, dn, val))
+            ctx.count("decoy_assign_checked")
+            if n.is_def:
+                ctx.count("decoy_assign_on_middle")
+            outcome = "unrelated-changed" if not same_value(old, val) else "same"
         elif name == "del":
             node = self.node(op[1])
             verdicts = self.structural_verdicts(node)
@@ -1012,7 +1283,8 @@ class History:
             ctx.sig(self.depth, tuple(self.levels), name,
                     op[1][0] if len(op) > 1 else "-", outcome, front_local,
                     tuple(d.local is not ABSENT for d in self.defs[1:]),
-                    self.front_verdict)
+                    self.front_verdict,
+                    *(["redeclared"] if self.redeclared else []))
 
     def step_reentrant(self, op):
         """An assignment stored into terminal T while a handler is armed that reacts to
@@ -1123,8 +1395,9 @@ class History:
         changed_link = False
         for t in self.terms:
             t.value = getattr(t.obj, t.target)
-            for dn in self.decoys:
-                self.decoy_vals[(t.serial, dn)] = getattr(t.obj, dn)
+        for n, dns in self.decoy_owners:
+            for dn in dns:
+                self.decoy_vals[(n.serial, dn)] = getattr(n.obj, dn)
         for d in self.defs:
             if d.obj.p is None:
                 tgt = None
@@ -1144,6 +1417,7 @@ class History:
                 ctx.count("roundtrip_local_value_kept")
             d.local = local
             d.copied, d.swapped, d.deleted, d.via_none = family, False, False, False
+            d.eqswap = False
         self.attach_recorders()
         del self.log[:]
         if delegateless(self.front.ref):
@@ -1226,6 +1500,10 @@ def run(ctx):
         try:
             stop = hist.run()
             ctx.count("histories")
+            if hist.redeclared:
+                ctx.count("histories_redeclared")
+            if hist.eqmode != "identity":
+                ctx.count("histories_eq_delegates")
             if stop is not None:
                 report(ctx, h, hist, stop)
             elif h < 3 * ctx.nshards:
